@@ -124,11 +124,12 @@ def _history_shapes():
     lt = ("LT", ("Plus", x, y), z)
     o = ("Or", a, lt)
     kw1, kw2 = S("let"), S("push")           # names both concrete syntaxes have to quote, each in its own way
-    targets = [("And", kw1, ("Or", kw2, a)), ("LE", ("Minus", ("Plus", ("lit", 5, INT), ("lit", 3, INT)), x), ("lit", 10, INT)),
+    targets = [("LT", ("Plus", S("yy", INT), ("Times", S("xx", INT), ("lit", -3, INT))), ("lit", 7, INT)),
+               ("And", kw1, ("Or", kw2, a)), ("LE", ("Minus", ("Plus", ("lit", 5, INT), ("lit", 3, INT)), x), ("lit", 10, INT)),
                ("LT", ("Plus", ("Minus", ("lit", 5, INT), x), ("lit", 3, INT)), y), ("And", o, ("Not", ("And", b, o))), ("Implies", ("Iff", a, b), ("Ite", c, lt, ("Not", lt))),
                ("forall", [("a", BOOL)], ("Or", a, ("And", b, lt))), ("Equals", ("Times", ("lit", 2, INT), ("Plus", x, y)), ("Minus", z, x))]
     five, three_ = ("lit", 5, INT), ("lit", 3, INT)
-    history = [("Or", kw1, ("Not", kw2)), ("Plus", ("Minus", five, x), three_), ("Plus", ("Minus", ("Plus", x, y), z), ("lit", 1, INT)),
+    history = [("LT", ("lit", -3, INT), ("lit", 7, INT)), ("Or", kw1, ("Not", kw2)), ("Plus", ("Minus", five, x), three_), ("Plus", ("Minus", ("Plus", x, y), z), ("lit", 1, INT)),
                o, ("And", b, o), ("Not", lt), ("Plus", x, y), ("Iff", a, b), ("Or", ("And", b, lt), c),
                ("exists", [("b", BOOL)], ("And", b, lt)), ("LE", ("Plus", x, y), ("lit", 0, INT)), ("And", a, ("Not", a))]
     return targets, history
@@ -140,6 +141,7 @@ def _hist_job(job):
     ti, svcs = job
     targets, history = _history_shapes()
     shape = Shape(targets[ti])
+    dummy = Shape(("lit", True, BOOL))     # the target is built inside the run: after the history, resp. first
     table = _services()
 
     def apply(fn, w, it, f):
@@ -148,7 +150,7 @@ def _hist_job(job):
         except AbsRaise as ex:
             return ("raise", ex.cls_name)
 
-    def call_hist(w, it, f):
+    def call_hist(w, it, f_):
         for ht in history:
             h = proc.build_shape(w, ht)
             for nm in ("serialize", "to_smtlib", "simplify", "substitute", "get_type", "free variables", "atoms", "size (depth)", "size",
@@ -161,12 +163,13 @@ def _hist_job(job):
                     pass
         # another map for the substituter, a failing construction, many unrelated nodes
         try:
-            it.call(it.getattr(f, "substitute"), [{w.symbol("a", ("BOOL",)): w.symbol("b", ("BOOL",))}])
+            it.call(it.getattr(proc.build_shape(w, history[-1]), "substitute"), [{w.symbol("a", ("BOOL",)): w.symbol("b", ("BOOL",))}])
             w.app("And", w.symbol("x", ("INT",)), w.symbol("a", ("BOOL",)))
         except AbsRaise:
             pass
         for i in range(12):
             w.app("Or", w.symbol("u%d" % i, ("BOOL",)), w.symbol("a", ("BOOL",)))
+        f = proc.build_shape(w, shape.t)
         out = {}
         for svc in svcs:
             fn = table[svc][0]
@@ -176,7 +179,7 @@ def _hist_job(job):
             out[svc] = (r1[0], ac_sig(w, r1[1]) if r1[0] == "ret" else r1[1], same)
         return out
 
-    ph = proc.run_proc(shape, call_hist, post=lambda w, f, v, facts: proc.ProcResult(shape, "valid", v), services="full", max_paths=8,
+    ph = proc.run_proc(dummy, call_hist, post=lambda w, f, v, facts: proc.ProcResult(shape, "valid", v), services="full", max_paths=8,
                        interp_kwargs={"max_steps": 12000000})
     results = []
     if len(ph) != 1 or ph[0].kind != "valid":
@@ -186,10 +189,10 @@ def _hist_job(job):
     for svc in svcs:
         fn, fresh_syms = table[svc]
 
-        def call_fresh(w, it, f, fn=fn):
-            r = apply(fn, w, it, f)
+        def call_fresh(w, it, f_, fn=fn):
+            r = apply(fn, w, it, proc.build_shape(w, shape.t))
             return (r[0], ac_sig(w, r[1]) if r[0] == "ret" else r[1])
-        pf = proc.run_proc(shape, call_fresh, post=lambda w, f, v, facts: proc.ProcResult(shape, "valid", v), services="full", max_paths=8)
+        pf = proc.run_proc(dummy, call_fresh, post=lambda w, f, v, facts: proc.ProcResult(shape, "valid", v), services="full", max_paths=8)
         if len(pf) != 1 or pf[0].kind != "valid":
             results.append((svc, repr(shape), "unsupported", "%s %s" % (pf[0].kind, str(pf[0].detail)[:200])))
             continue
